@@ -198,8 +198,8 @@ func Worker(e Engine, tier string, seed uint64, shard, of int, runs uint64, know
 			// and minimise it (ddmin over the prelude, each trial in a fresh process).
 			var prelude []json.RawMessage
 			first := uint64(shard)
-			if n := (i - uint64(shard)) / uint64(of); n > 4000 {
-				first = i - 4000*uint64(of)
+			if n := (i - uint64(shard)) / uint64(of); n > 1500 {
+				first = i - 1500*uint64(of)
 			}
 			for j := first; j < i; j += uint64(of) {
 				prelude = append(prelude, PlanJSON(e.NewPlan(NewRand(Mix(seed, m.Property, j)), tier, j)))
@@ -210,9 +210,9 @@ func Worker(e Engine, tier string, seed uint64, shard, of int, runs uint64, know
 			}
 			tstart := time.Now()
 			trials := 0
-			for chunk := (len(prelude) + 1) / 2; chunk >= 1 && time.Since(tstart) < 120*time.Second; {
+			for chunk := (len(prelude) + 1) / 2; chunk >= 1 && time.Since(tstart) < 75*time.Second; {
 				removed := false
-				for at := 0; at < len(prelude) && time.Since(tstart) < 120*time.Second; {
+				for at := 0; at < len(prelude) && time.Since(tstart) < 75*time.Second; {
 					end := at + chunk
 					if end > len(prelude) {
 						end = len(prelude)
@@ -370,7 +370,11 @@ func Check(e Engine, o CheckOpts) int {
 			"--deadline", o.Deadline.String())
 		cmd.Stdout = logf
 		cmd.Stderr = logf
-		cmd.Env = append(os.Environ(), "GOMAXPROCS=2", "GORACE=halt_on_error=0 suppress_equal_stacks=0 suppress_equal_addresses=0 history_size=3 exitcode=0 log_path="+outPath+".race")
+		gmp := "GOMAXPROCS=2"
+		if m.NeedsRace {
+			gmp = "GOMAXPROCS=1" // serial execution anyway; one P keeps sync.Pool hand-over between tasks likely
+		}
+		cmd.Env = append(os.Environ(), gmp, "GORACE=halt_on_error=0 suppress_equal_stacks=0 suppress_equal_addresses=0 history_size=3 exitcode=0 log_path="+outPath+".race")
 		if err := cmd.Start(); err != nil {
 			fmt.Fprintf(os.Stderr, "cannot start worker: %v\n", err)
 			return 2
